@@ -138,7 +138,15 @@ def rule_refcnt_siblings(fx, col):
                         if cb is not None and any(U.callee_name(tt) in ('into_ptr', 'as_ptr') and (tt['callee'].get('trait') or '').endswith('ref_cnt::RefCnt') for _, tt in cb.calls(include_cleanup=False)):
                             return True
                 return False
-            bad = [o for o in src if not (o[0] == 'call' and (U.callee_name(b.term(o[1])) in OKC or mapped_conversion(b.term(o[1])))) and o[0] != 'const']
+            def wrapper_agg(o):
+                # `Some(p)` / `Ok(p)` built on the way (a spelled-out `map`): transparent, its payload is among the sources already
+                if o[0] != 'agg':
+                    return False
+                st = b.stmts(o[1])[o[2]] if o[2] < len(b.stmts(o[1])) else None
+                return bool(st) and st['k'] == 'assign' and st['rv'].get('adt') in ('core::option::Option', 'core::result::Result')
+            own_conv = lambda t: U.callee_name(t) in ('into_ptr', 'as_ptr') and (t['callee'].get('trait') or '').endswith('ref_cnt::RefCnt') and kind.startswith('std::option::Option')
+            bad = [o for o in src if not (o[0] == 'call' and (U.callee_name(b.term(o[1])) in OKC or mapped_conversion(b.term(o[1])) or own_conv(b.term(o[1]))))
+                   and o[0] != 'const' and not wrapper_agg(o)]
             col.add('REFCNT-SIBLINGS', '<%s>::%s|pointer produced by the std conversion' % (kind, nm), bool(src) and not bad,
                     'sources of the returned pointer: %s' % sorted((o[0], U.callee_name(b.term(o[1])) if o[0] == 'call' else o[1]) for o in src))
         # null symmetry
